@@ -70,6 +70,14 @@ class Port(typing.Iterable[port.Subscription]):
         """
         self._subscriptions[subscription] = None
 
+    def discard(self, subscription: 'flow.Subscription') -> None:
+        """Remove the subscription from this port (if present).
+
+        Args:
+            subscription: Subscription to be removed.
+        """
+        self._subscriptions.pop(subscription, None)
+
     def __iter__(self):
         return iter(self._subscriptions.keys())
 
@@ -169,6 +177,27 @@ class Node(metaclass=abc.ABCMeta):
             raise _exception.TopologyError('Self subscription')
         self._output[index].add(subscription)
 
+    def _unpublish(self, index: int, subscription: 'flow.Subscription') -> None:
+        """Withdraw the given subscription from the output port (rollback of a failed operation).
+
+        Args:
+            index: Output port index the subscription has been published from.
+            subscription: Subscription to be withdrawn.
+        """
+        if 0 <= index < self.szout:
+            self._output[index].discard(subscription)
+
+    def _publishable(self, index: int, subscription: 'flow.Subscription') -> None:
+        """Check (without changing anything) the given subscription can be published from the output port.
+
+        Args:
+            index: Output port index to publish from.
+            subscription: Subscriber node and port to publish to.
+        """
+        assert 0 <= index < self.szout, 'Invalid output index'
+        if self is subscription.node:
+            raise _exception.TopologyError('Self subscription')
+
     @abc.abstractmethod
     def subscribed(self, publisher: 'flow.Node') -> bool:
         """Checking we are on given node's subscription list.
@@ -266,6 +295,11 @@ class Worker(Node):
             raise _exception.TopologyError('Trained node publishing')
         super()._publish(index, subscription)
 
+    def _publishable(self, index: int, subscription: 'flow.Subscription') -> None:
+        if self.trained:
+            raise _exception.TopologyError('Trained node publishing')
+        super()._publishable(index, subscription)
+
     @property
     def input(self) -> typing.Iterable[port.Type]:
         """Get subscribed input ports.
@@ -332,7 +366,11 @@ class Worker(Node):
         if any(f.trained for f in self._group):
             raise _exception.TopologyError('Fork train collision')
         train.publish(self, port.Train())
-        label.publish(self, port.Label())
+        try:
+            label.publish(self, port.Label())
+        except Exception as err:
+            train.unpublish(self, port.Train())
+            raise err
 
     def subscribed(self, publisher: 'flow.Node') -> bool:
         """Checking we are on given node's subscription list.
@@ -408,8 +446,13 @@ class Future(Node):
             Args:
                 publisher: Left side publisher
             """
+            # pylint: disable=protected-access
             if publisher in self._input:
                 raise _exception.TopologyError('Publisher collision')
+            if isinstance(publisher._node, Future) and publisher._node._follows(self):
+                raise _exception.TopologyError('Self subscription')
+            for subscription in self._output[index]:
+                publisher._node._publishable(publisher._index, subscription)
             self._input[publisher] = index
             self._collapse()
 
@@ -427,6 +470,18 @@ class Future(Node):
         # pylint: disable=protected-access
         return any(p._node is publisher or p._node.subscribed(publisher) for p in self._input)
 
+    def _follows(self, other: 'flow.Future') -> bool:
+        """Check this is the other future or it is (transitively) registered to it through futures only.
+
+        Args:
+            other: Future node to check for being our (indirect) publisher.
+
+        Returns:
+            True if we are (indirectly) fed by the other future.
+        """
+        # pylint: disable=protected-access
+        return self is other or any(isinstance(p._node, Future) and p._node._follows(other) for p in self._input)
+
     def _collapse(self) -> None:
         """Callback for interconnecting proxied registrations."""
         for publisher, subscription in ((p, s) for p, i in self._input.items() for s in self._output[i]):
@@ -443,6 +498,18 @@ class Future(Node):
         """
         super()._publish(index, subscription)
         self._collapse()
+
+    def _unpublish(self, index: int, subscription: 'flow.Subscription') -> None:
+        super()._unpublish(index, subscription)
+        for publisher, i in self._input.items():
+            if int(i) == int(index):
+                publisher._node._unpublish(publisher._index, subscription)  # pylint: disable=protected-access
+
+    def _publishable(self, index: int, subscription: 'flow.Subscription') -> None:
+        super()._publishable(index, subscription)
+        for publisher, i in self._input.items():
+            if int(i) == int(index):
+                publisher._node._publishable(publisher._index, subscription)  # pylint: disable=protected-access
 
     def fork(self) -> 'flow.Future':
         """There is nothing to copy on a Future node so just create a new one.
